@@ -197,8 +197,8 @@ PROPS = {
         prefixes=["c20_"],
         level_text="Bounded model checking of the real length functions and of FindChangePoints::next: monotonicity len(n) <= len(n+1) for symbolic n and parameters; Kraft: 'length is constant on each piece' for symbolic n, then the exact Kraft sum over all pieces of the 64-bit domain with the library's own length at each piece start (2^-127 fixed point), periodic codes via the period lemma len(n+b)=len(n)+1 and the exact sum of the first period; change-point iterator: first item (0,f(0)), one next() from an arbitrary iterator state for a symbolic monotone step function returns exactly the next change point, and next() returns None without overflow when no further change point exists.",
         assumptions=[
-            "Golomb: b <= 64 symbolic, n < 2^32 (monotone / period lemma); Rice period lemma k <= 20, n < 2^40",
-            "change-point exactness: distance to the next change point < 2^16 (quick) / 2^32 (thorough), next change point <= 2^63",
+            "Golomb: b <= 16 symbolic, n < 2^16 (quick) / b <= 64, n < 2^32 (thorough) for the monotone and period lemmas; Rice period lemma k <= 20, n < 2^40",
+            "change-point exactness: quick: iterator right after its first item (current = 0), next change point < 2^8, second change point anywhere; states just above 2^62, around 2^63 and next to 2^64 with gaps < 64; thorough adds current < 2^16 (gap < 2^8), arbitrary 64-bit current (gap < 2^5) and current = 0 with gap < 2^12; larger gaps with a fully symbolic state did not finish in 90 min",
             "the geometric series over periods (Rice/Golomb/unary) is the textbook step, not discharged by the solver",
         ],
         outside=COMMON_OUTSIDE + ["get_implied_distribution / sampling (floating point)", "change points farther than the stated gap from the previous one"],
